@@ -38,7 +38,7 @@ CfgOf(x) ==
    rejected |-> x.cfg.rejected, max |-> x.cfg.max, batch |-> x.cfg.batch,
    tracked |-> x.tracked, qtracked |-> x.qtracked, utracked |-> x.utracked]
 
-NoStats == [cases |-> 0, tx |-> 0, rec |-> 0, logs |-> 0, q |-> 0, imports |-> 0,
+NoStats == [cases |-> 0, tx |-> 0, rec |-> 0, logs |-> 0, q |-> 0, overlaps |-> 0, imports |-> 0,
             crashes |-> 0, must |-> 0, mustnot |-> 0, either |-> 0]
 
 TraceInit ==
@@ -236,6 +236,34 @@ EvQ ==
      /\ stats' = [stats EXCEPT !.q = @ + 1]
      /\ UNCHANGED <<cid, backend, cfg, open, made, olog, quiet, ntxs, hist>>
 
+(* Queries that OVERLAP transitions (in-process slice): a query answers from  *)
+(* ONE log - the log as it was at some moment between its call and its      *)
+(* return - however many records are created and rotated meanwhile.         *)
+(* LogAt(n) = the slice when n records had been created.                    *)
+LogAt(n) == LET k == MinOf(n, cfg.max) IN SubSeq(made, n - k + 1, n)
+SumsOf(L) == [i \in 1..Len(L) |-> L[i].sum]
+RevSeq(s) == [i \in 1..Len(s) |-> s[Len(s) + 1 - i]]
+
+EvOverlap ==
+  /\ Line.ev = "qo"
+  /\ LET x == Line
+         cand == {n \in x.lo..x.hi : n >= 0 /\ n <= Len(made)}
+         okMatch == \E n \in cand : x.seen1 = SumsOf(LogAt(n)) /\ x.seen2 = x.seen1
+         okFind == \E n \in cand : x.res = RevSeq(SumsOf(LogAt(n)))
+         v == IF x.status # "ok" THEN {<<l, "QueryExact", "overlap-" \o x.status, x.mode>>}
+              ELSE IF x.mode = "match" /\ ~okMatch
+                THEN {<<l, "QueryExact", IF x.seen2 # x.seen1 THEN "overlap-snapshot-changed"
+                                          ELSE "overlap-snapshot", "Match">>}
+              ELSE IF x.mode = "find" /\ ~okFind
+                THEN {<<l, "QueryExact", "overlap", "FindLatest">>}
+              ELSE {}
+     IN
+     /\ open
+     /\ viol' = viol \cup v
+     /\ drift' = drift \cup (IF cand = {} THEN {<<l, "qo.window">>} ELSE {})
+     /\ stats' = [stats EXCEPT !.overlaps = @ + 1]
+  /\ UNCHANGED <<cid, backend, cfg, open, made, olog, quiet, ntxs, hist, ref>>
+
 EvImport ==
   /\ Line.ev = "import"
   /\ LET x == Line IN
@@ -280,7 +308,7 @@ Done ==
 
 TraceNext ==
   \/ /\ l <= Len(Trace)
-     /\ (EvCase \/ EvTx \/ EvLog \/ EvQ \/ EvImport \/ EvCrash \/ EvEnd)
+     /\ (EvCase \/ EvTx \/ EvLog \/ EvQ \/ EvOverlap \/ EvImport \/ EvCrash \/ EvEnd)
      /\ l' = l + 1
   \/ (Done /\ l' = l + 1)
 
